@@ -122,19 +122,25 @@ Definition has_prefix (pfx s : bytes) : bool :=
 Definition strip_suffix (sfx s : bytes) : option bytes :=
   option_map (@rev Z) (strip_prefix (rev sfx) (rev s)).
 
-(* strconv.ParseInt(s, 10, 32) on the canonical renderings that occur in keys *)
-Fixpoint uncodes (b : bytes) : string :=
+(* strconv.ParseInt(s, 10, 32): optional sign, at least one decimal digit, int32 range *)
+Fixpoint digits_val (acc : Z) (b : bytes) : option Z :=
   match b with
-  | [] => EmptyString
-  | c :: b' => String (ascii_of_N (Z.to_N c)) (uncodes b')
+  | [] => Some acc
+  | c :: b' => if (48 <=? c) && (c <=? 57) then digits_val (acc * 10 + (c - 48)) b' else None
   end.
+Definition int32_ok (z : Z) : bool := (-2147483648 <=? z) && (z <=? 2147483647).
 Definition parse_dec (b : bytes) : option Z :=
   match b with
   | [] => None
-  | _ => match DecimalString.NilEmpty.int_of_string (uncodes b) with
-         | Some d => if bytes_eqb (dec (Z.of_int d)) b then Some (Z.of_int d) else None
-         | None => None
-         end
+  | c :: b' =>
+      let '(neg, ds) := if c =? 45 then (true, b') else if c =? 43 then (false, b') else (false, b) in
+      match ds with
+      | [] => None
+      | _ => match digits_val 0 ds with
+             | Some v => let z := if neg then - v else v in if int32_ok z then Some z else None
+             | None => None
+             end
+      end
   end.
 
 (* ParseConsumerGroupID *)
